@@ -5,8 +5,9 @@ reference specification Spec.Handoff is evaluated on the implementation's hand-o
 import base64, json, os
 import vlib, session, dataq
 
-REQUIRED = ['data_fidelity', 'data_fidelity_submission', 'trace_no_client_linebreak', 'trace_valid_header_block',
-            'envelope_exact', 'accepted_consumes_exactly_the_message', 'templates_shape']
+REQUIRED = ['data_fidelity', 'data_fidelity_submission', 'submission_adds_only_absent', 'trace_no_client_linebreak',
+            'trace_valid_header_block', 'envelope_exact', 'accepted_consumes_exactly_the_message', 'templates_shape',
+            'authname_is_copied_raw', 'submission_only_absent_counterexample', 'submission_only_absent_partial']
 H = lambda b: b.hex() if b else '-'
 CORR = 'model QsmtpModel.Data.smtpData / Queue vs qsmtpd/data.c, queue.c, spf.c (whole server)'
 
@@ -49,7 +50,22 @@ def wire(lines):
 def gen_message(rng):
     """(wire bytes, tag). Lines are given as they appear on the wire minus CRLF (so a leading dot is
     the stuffing dot or not - both are what a client may send)."""
-    kind = rng.choice(['normal', 'normal', 'normal', 'nobody', 'nohdr', 'empty', 'shapes', 'shapes', 'hdronly-dot', 'raw'])
+    kind = rng.choice(['normal', 'normal', 'normal', 'nobody', 'nohdr', 'empty', 'shapes', 'shapes', 'hdronly-dot', 'raw', 'malformed', 'hops'])
+    if kind == 'malformed':
+        # one to three defective lines (bare LF, bare CR, over-long) among good ones: rejected as a whole,
+        # consumed up to the terminating dot line
+        parts = []
+        for _ in range(rng.randrange(2, 7)):
+            parts.append(gen_line(rng, rng.choice(['txt', 'hdr', 'empty', 'dotword'])) + b'\r\n')
+        for _ in range(rng.randrange(1, 4)):
+            bad = rng.choice([b'bare\nlf\r\n', b'bare\rcr\r\n', b'x' * rng.choice([1000, 1001, 1500, 2500]) + b'\r\n', b'\n\r\n', b'a\r\r\n'])
+            parts.insert(rng.randrange(len(parts) + 1), bad)
+        parts += [b'NOOP\r\n', b'RSET\r\n']
+        return b''.join(parts) + b'.\r\n', 'malformed'
+    if kind == 'hops':
+        k = rng.choice([99, 100, 101, 102])
+        lines = [rng.choice([b'Received: from x', b'RECEIVED: by y', b'received:z']) for _ in range(k)] + [b'Subject: x', b'', b'Received: in the body does not count', b'b']
+        return wire(lines), 'hops'
     hdr = [gen_line(rng, 'hdr') for _ in range(rng.randrange(0, 5))]
     body_shapes = ['txt', 'txt', 'empty', 'dots', 'dotword', 'long', 'longdot', '8bit', 'dot']
     body = [gen_line(rng, rng.choice(body_shapes)) for _ in range(rng.randrange(0, 8))]
@@ -235,6 +251,12 @@ def run_specs(ctx, binary, specs, name):
         ctx.cov['evaluations'] += 1
         if d:
             dis.append((case, 'tx %d: %s' % (k, d), mo[:200]))
+        # C05 side: a payload that ends in its dot line is answered by exactly one reply, whatever is in it
+        if w.snap is not None and tx is not None and (tx.payload.endswith(b'\r\n.\r\n') or tx.payload == b'.\r\n') \
+                and b'\n.\r\n' not in tx.payload[:-3] and not tx.payload.startswith(b'.\r\n.'):
+            dc = dataq.split_window(w, paylen)[0]
+            if len(dc) > 2:
+                fails.append((case, str(dc), 'fails more-than-one-reply-to-the-message (payload run as commands)'))
         if m:
             ctx.count('outcome:' + '+'.join(m['codes']))
         ctx.count('tag:' + spec['txs'][k].get('tag', '?') if k < len(spec['txs']) else 'tag:?')
@@ -305,7 +327,7 @@ def chunk_independence(ctx, binary):
     """one message, many segmentations: the hand-off must be byte-identical (implementation only)"""
     rng = ctx.rng
     specs, groups = [], []
-    for g in range(12 if ctx.quick() else 80):
+    for g in range(40 if ctx.quick() else 300):
         payload, kind = gen_message(rng)
         n = len(payload)
         variants = [None, [1] * n if n <= 300 else [7] * (n // 7 + 1)]
@@ -353,7 +375,7 @@ def run(ctx):
         specs = corpus_specs(ctx)
         ctx.count('corpus', len(specs))
         specs += auth_name_specs()
-        n = 260 if ctx.quick() else 4000
+        n = 1000 if ctx.quick() else 12000
         specs += [gen_spec(ctx.rng) for _ in range(n)]
         for i in range(0, len(specs), 400):
             run_specs(ctx, binary, specs[i:i + 400], 'handoff')
